@@ -974,3 +974,81 @@ def r_kp_skip_after_cut(cx):
               "tests the token list for emptiness only before the comment is cut off" if raw else
               "has no test for an empty token list in its line loop"), where or cx.where(f.d["span"]))
     cx.count("R-KP-SKIP-AFTER-CUT", "line_loops", n)
+
+
+@rule("R-KP-CONTEXT", ["C20"])
+def r_kp_context(cx):
+    """kp serves every operation the library accepts: file based macros, grids and PROJ syntax included - it builds its
+    operation in a `Plain` context (the one with access to the resources on disk), not in a `Minimal` one."""
+    f = kp_fn(cx, "main")
+    if f is None:
+        cx.ob("R-KP-CONTEXT", "anchor", False, "anchor-missing: kp::main")
+        return
+    made = []
+    for bb, t in f.calls():
+        c = f.callee(t) or ""
+        if c.startswith("geodesy::context::") and c.rsplit("::", 1)[-1] in ("new", "default"):
+            made.append((c, t))
+        elif "Context" in (t.get("callee") or "") and (t.get("callee") or "").rsplit("::", 1)[-1] == "new":
+            made.append((c or (t.get("callee_full") or ""), t))
+    plain = [x for x in made if "plain::Plain" in x[0] or "Plain" in (x[1].get("callee_full") or "")]
+    other = [x for x in made if x not in plain]
+    ok = bool(plain) and not other
+    cx.ob("R-KP-CONTEXT", "main/context", ok,
+          "kp builds its operation in a Plain context" if ok else
+          "kp creates its context with %s: operations that need resources on disk (macros from ./geodesy/resources, grids, PROJ "
+          "syntax) are refused although the library accepts them" % (other[0][0] if other else "something that is not Plain::new"),
+          cx.where((other or made or [(None, {"span": f.d["span"]})])[0][1]["span"]))
+    cx.count("R-KP-CONTEXT", "contexts", len(made))
+
+
+@rule("R-KP-EVERY-LINE", ["C20"])
+def r_kp_every_line(cx):
+    """Every coordinate line gives one output line: in the line loop of kp::main the only way to go on to the next line
+    without having stored a tuple is the test for an empty (blank or comment-only) line. A second `continue` - lines whose
+    first column does not parse, say - makes kp print fewer lines than it read, each later one shifted against its input."""
+    import pertuple
+    f = kp_fn(cx, "main")
+    if f is None:
+        cx.ob("R-KP-EVERY-LINE", "anchor", False, "anchor-missing: kp::main")
+        return
+    n = 0
+    for lp in f.loops():
+        x = pertuple.iterator_entry_value(f, lp)
+        if x is None:
+            continue
+        hit = []
+        mir.walk(x, lambda y: (hit.append(1) if y[0] == "call" and isinstance(y[1], str) and y[1].endswith("BufRead::lines") else None) or True)
+        if not hit:
+            continue
+        pushes = [bb for bb in lp.body if f.term(bb)["k"] == "call" and (f.callee(f.term(bb)) or "").endswith("Vec::<T, A>::push") and
+                  "Coor4D" in (f.term(bb).get("callee_full") or "")]
+        if not pushes:
+            continue
+        n += 1
+        skips = []
+        for b in sorted(lp.body):
+            sw = f.term(b)
+            if sw["k"] != "switch" or f.innermost_loop(b) is not lp or any(f.dominates(p, b) for p in pushes):
+                continue
+            for sx in f.succ[b]:
+                if sx in lp.body and lp.header in f.reach_from([sx], avoid=pushes) and \
+                        not all(lp.header in f.reach_from([o], avoid=pushes) for o in f.succ[b] if o in lp.body):
+                    skips.append((b, sw))
+                    break
+        odd = []
+        for b, sw in skips:
+            c = mir.strip_refs(f.operand(sw["discr"], f.end_point(b)))
+            while c[0] == "un" and c[1] == "Not":
+                c = mir.strip_refs(c[2])
+            empt = (c[0] == "call" and isinstance(c[1], str) and c[1].endswith("::is_empty")) or \
+                (c[0] == "bin" and any(mir.strip_refs(z)[0] == "call" and str(mir.strip_refs(z)[1]).endswith("::len") for z in (c[2], c[3])))
+            # the header's own `next() is Some` test and the `?` on the line are not skips of a line
+            is_iter = c[0] == "discr"
+            if not empt and not is_iter:
+                odd.append((b, sw))
+        cx.ob("R-KP-EVERY-LINE", "main/skips", not odd,
+              "the only test that skips a line is the one for an empty token list (%d skip tests)" % len(skips) if not odd else
+              "kp::main skips input lines on a test other than `empty`: such lines get no output line, and every later output "
+              "line is shifted against its input", cx.where(odd[0][1]["span"]) if odd else cx.where(f.term(lp.header)["span"]))
+    cx.count("R-KP-EVERY-LINE", "line_loops", n)
